@@ -12,6 +12,8 @@
 //! Stage F (`wb`): a raw Workbook stream (globals substream + sheet substreams) with records shorter than their
 //!   fixed layout, wrapped into a compound file and opened with `Xls::new`: the reader must answer Ok or Err,
 //!   never panic (robustness of xls.rs: the C06 overlap repaired together with C02's sites).
+//! Stage G (`names`): defined names (Lbl records) of BIFF8 workbooks (flag byte + 8/16-bit characters) and BIFF5
+//!   workbooks (plain code-page bytes, no flag byte) read through `Xls::new` / `defined_names` against the stored names.
 //! Stage D (`file`): one layout of every table is wrapped into a complete .xls (compound file written by
 //!   `verif_harness::xlsw`, the SST + CONTINUE records being the Lean encoder's) with LABELSST cells for every
 //!   string, inline LABEL cells, FORMULA + STRING results and sheet names taken from the table; read through
@@ -1069,6 +1071,134 @@ fn wb_corpus() -> Vec<String> {
     v.drain(..).map(|b| format!("wb {}", hexs(&b))).collect()
 }
 
+// ---------------------------------------------------------------- stage G: defined names, BIFF8 and BIFF5
+
+/// `names <biff8 0|1> <name utf8 hex>,<rgce hex>;…` → a workbook stream with one Lbl per name
+fn names_stream(biff8: bool, names: &[(String, Vec<u8>)], rng: &mut Rng) -> Vec<u8> {
+    use verif_harness::xlsw as x;
+    let vers: u16 = if biff8 { 0x0600 } else { 0x0500 };
+    let bof = |dt: u16| -> Vec<u8> {
+        let mut b = vers.to_le_bytes().to_vec();
+        b.extend_from_slice(&dt.to_le_bytes());
+        b.extend_from_slice(&[0xBB, 0x0D, 0xCC, 0x07]);
+        if biff8 {
+            b.extend_from_slice(&[0u8; 8]);
+        }
+        b
+    };
+    let mut g: Vec<(u16, Vec<u8>)> = vec![(x::BOF, bof(0x0005))];
+    // BIFF8 files declare code page 1200; the BIFF5 workbooks here use Latin-1 names under code page 1252
+    g.push((x::CODEPAGE, (if biff8 { 1200u16 } else { 1252u16 }).to_le_bytes().to_vec()));
+    let mut bs = 0u32.to_le_bytes().to_vec();
+    bs.extend_from_slice(&[0, 0]);
+    if biff8 {
+        bs.extend_from_slice(&[2, 0, b'S', b'1']);
+    } else {
+        bs.extend_from_slice(&[2, b'S', b'1']);
+    }
+    let bs_at = g.len();
+    g.push((x::BOUNDSHEET, bs));
+    for (name, rgce) in names {
+        let mut l = vec![0u8, 0, 0];
+        let units: Vec<u16> = name.encode_utf16().collect();
+        l.push(units.len() as u8);
+        l.extend_from_slice(&(rgce.len() as u16).to_le_bytes());
+        l.extend_from_slice(&[0u8; 8]);
+        if biff8 {
+            let (fl, body) = x::pack_units(&units, None, rng);
+            l.push(fl);
+            l.extend(body);
+        } else {
+            l.extend(units.iter().map(|u| *u as u8));
+        }
+        l.extend_from_slice(rgce);
+        g.push((x::LBL, l));
+    }
+    g.push((x::EOF, vec![]));
+    let glen: usize = g.iter().map(|r| 4 + r.1.len()).sum();
+    g[bs_at].1[..4].copy_from_slice(&(glen as u32).to_le_bytes());
+    let mut out = x::frame(&g);
+    out.extend(x::frame(&[(x::BOF, bof(0x0010)), (x::EOF, vec![])]));
+    out
+}
+
+fn run_names(line: &str) -> Outcome {
+    let mut o = Outcome { input: line.to_string(), ..Default::default() };
+    let w: Vec<&str> = line.split_whitespace().collect();
+    if w.len() != 3 {
+        o.fail("model_vs_spec", "bad-replay-line", "", "", "");
+        return o;
+    }
+    let biff8 = w[1] == "1";
+    let names: Vec<(String, Vec<u8>)> = w[2]
+        .split(';')
+        .map(|p| {
+            let (n, r) = p.split_once(',').unwrap_or((p, "-"));
+            (String::from_utf8_lossy(&unhex(n)).to_string(), unhex(r))
+        })
+        .collect();
+    let mut rng = Rng::new(verif_harness::fnv64(line.as_bytes()));
+    let stream = names_stream(biff8, &names, &mut rng);
+    let bytes = verif_harness::cfbw::write_cfb(&[((if biff8 { "Workbook" } else { "Book" }).to_string(), stream)], &verif_harness::cfbw::CfbOpts::default(), &mut rng);
+    o.count(if biff8 { "names.biff8" } else { "names.biff5" });
+    o.add("names.names", names.len() as u64);
+    let want: Vec<String> = names.iter().map(|n| n.0.clone()).collect();
+    let res = guarded(|| match Xls::new(std::io::Cursor::new(bytes)) {
+        Ok(wb) => Ok(wb.defined_names().iter().map(|d| d.0.clone()).collect::<Vec<String>>()),
+        Err(e) => Err(format!("{e:?}")),
+    });
+    o.nontrivial = true;
+    let sig_b = if biff8 { "biff8" } else { "biff5" };
+    match res {
+        Ok(Ok(got)) => {
+            if got != want {
+                o.fail("impl_vs_spec", &format!("defined_name_text_differs_{sig_b}"), &format!("{got:?}"), "(no file-level model)", &format!("{want:?}"));
+            }
+        }
+        Ok(Err(e)) => o.fail("impl_vs_spec", &format!("workbook_with_defined_names_rejected_{sig_b}"), &canon_err(&e), "(no file-level model)", &format!("{want:?}")),
+        Err(m) => o.fail("impl_vs_spec", &format!("workbook_with_defined_names_panics_{sig_b}"), &m, "(no file-level model)", &format!("{want:?}")),
+    }
+    o
+}
+
+fn gen_names(rng: &mut Rng) -> String {
+    let biff8 = rng.chance(1, 2);
+    let n = rng.range(1, 3);
+    let mut parts = vec![];
+    for _ in 0..n {
+        let len = *rng.pick(&[1usize, 2, 3, 8, 17, 20, 21, 40, 120, 255]);
+        let mut name = String::new();
+        let mut units = 0;
+        while units < len {
+            // BIFF5: Latin-1 letters only (one byte each under code page 1252, no C1 controls); BIFF8: anything but NUL
+            let c = if biff8 {
+                let k = rng.below(5);
+                gen_char(rng, k)
+            } else {
+                {
+                    let opts = [rng.range(0x41, 0x5A) as u32, rng.range(0x61, 0x7A) as u32, rng.range(0xC0, 0xFF) as u32, 0x5F, 0x31];
+                    char::from_u32(*rng.pick(&opts)).unwrap()
+                }
+            };
+            if c == '\0' || units + c.len_utf16() > len {
+                name.push('x');
+                units += 1;
+            } else {
+                units += c.len_utf16();
+                name.push(c);
+            }
+        }
+        let rgce: Vec<u8> = match rng.below(4) {
+            0 => vec![0x1E, 1, 0],
+            1 => vec![0x3a, 0, 0, 1, 0, 2, 0],
+            2 => vec![0x3b, 0, 0, 1, 0, 3, 0, 2, 0, 4, 0],
+            _ => vec![0x1E, 7, 0, 0x1E, 1, 0, 0x03],
+        };
+        parts.push(format!("{},{}", hexs(name.as_bytes()), hexs(&rgce)));
+    }
+    format!("names {} {}", biff8 as u8, parts.join(";"))
+}
+
 // ---------------------------------------------------------------- generators for the raw stages
 
 fn rec(typ: u16, payload: &[u8]) -> Vec<u8> {
@@ -1305,6 +1435,10 @@ fn corpus() -> Vec<(String, Option<String>)> {
         // D31-b: empty CONTINUE right after a character split (malformed): SST "ab" cut after 'a', then an empty CONTINUE
         ("dec fc000c000100000001000000020000613c0000003c0002000062".into(), None),
     ];
+    // regression of D35 found by review: a BIFF5 defined name (no flag byte) starting with an odd-coded letter
+    v.push((format!("names 0 {},1e0100", hexs(b"Assumptions_Table_Q1")), None));
+    v.push((format!("names 0 {},1e0100;{},3a000001000200", hexs(b"B"), hexs("Caf\u{e9}".as_bytes())), None));
+    v.push((format!("names 1 {},1e0100", hexs("A\u{416}\u{1F600}".as_bytes())), None));
     // whole file: BOM-like units at segment starts in SST, LABEL and a sheet name
     v.push(("file 1 case 1 6100fffe6200,~,~,0,1,1:1,-,-;fffe6100,~,~,0,1,-,-,-;-,~,~,0,1,-,-,-".into(), None));
     // fixed 9c57a3b (C06 overlap): header fields cut by a record end, negative cstUnique, cstUnique = 2^31-1 (reservation)
@@ -1375,6 +1509,7 @@ enum Job {
     Skip(u64),
     Str(u64),
     Wb(u64),
+    Names(u64),
     Line(String, Option<String>),
 }
 
@@ -1400,6 +1535,8 @@ fn run_job_inner(job: &Job, drv: &mut Driver) -> Vec<Outcome> {
                 let reply = drv.ask(case_line);
                 let stream = unhex(field(&reply, "bytes", "legal").unwrap_or("-"));
                 vec![run_file(seed.parse().unwrap_or(0), case_line, &stream)]
+            } else if l.starts_with("names ") {
+                vec![run_names(l)]
             } else if l.starts_with("wb ") {
                 vec![run_wb(l)]
             } else if l.starts_with("case ") {
@@ -1495,6 +1632,10 @@ fn run_job_inner(job: &Job, drv: &mut Driver) -> Vec<Outcome> {
             let (n, s) = gen_skip_case(&mut rng);
             vec![run_raw(&format!("skip {n} {}", hexs(&s)), drv, None)]
         }
+        Job::Names(seed) => {
+            let mut rng = Rng::new(*seed);
+            vec![run_names(&gen_names(&mut rng))]
+        }
         Job::Wb(seed) => {
             let mut rng = Rng::new(*seed);
             let s = gen_wb(&mut rng);
@@ -1524,6 +1665,8 @@ fn main() {
          stage D: one layout of each table inside a complete .xls (xlsw writer, random compound-file layout): LABELSST cell per \
          string, inline LABEL cells and FORMULA+STRING results for strings <= 2000 units, sheet names = first <= 30 units of a \
          table string (NUL excluded), read through Xls::new / sheet_names / worksheet_range against the stored text. \
+         stage G: 1-3 defined names (1..255 units; BIFF8: any characters, random 8/16-bit packing; BIFF5: Latin-1 letters as plain \
+         code-page-1252 bytes, no flag byte) in a BIFF8 / BIFF5 workbook, read through Xls::new / defined_names against the stored names. \
          stage F: a small workbook stream (BOF, CODEPAGE, DATEMODE, FORMAT, XF, BOUNDSHEET, SUPBOOK, EXTERNSHEET, LBL, SST, EOF + a \
          sheet with DIMENSIONS, LABEL, LABELSST, FORMULA, MERGECELLS) with one record cut to a random shorter length or one \
          byte replaced, sometimes a sheet offset beyond the stream, opened with Xls::new and every sheet read: Ok or Err, no panic. \
@@ -1561,6 +1704,9 @@ fn main() {
             jobs.push(Job::Str(rng.next()));
             jobs.push(Job::Str(rng.next()));
             jobs.push(Job::Wb(rng.next()));
+            if i % 2 == 0 {
+                jobs.push(Job::Names(rng.next()));
+            }
         }
     }
     let threads = if args.replay.is_some() {
